@@ -1,6 +1,7 @@
 package props
 
 import (
+	"strings"
 	"encoding/json"
 	"fmt"
 	"testing"
@@ -339,6 +340,25 @@ func TestC15(t *testing.T) {
 		}
 		stmts = append(stmts, lang.Return{X: lang.ArrayLit{Elems: observe}})
 		prog := &lang.Program{Stmts: stmts}
+		if gen.Uniform(rt, "longnames", 4) == 0 {
+			// the same program with names that agree in their first 64 (or 300)
+			// characters and differ only after that: every name is its own variable
+			prefix := strings.Repeat("a_rather_long_name_", rapid.SampledFrom([]int{4, 16}).Draw(rt, "prefixlen"))
+			long := func(n string) string {
+				if n == "Src" {
+					return n // the field of the host object keeps its name
+				}
+				return prefix + n
+			}
+			prog = lang.Rename(prog, long)
+			for _, mp := range []map[string]lang.Value{c.Vars, m.Globals} {
+				for k, v := range mp {
+					delete(mp, k)
+					mp[long(k)] = v
+				}
+			}
+			col.Class("names-sharing-a-long-prefix")
+		}
 		c.Script = lang.ProgramText(prog)
 		for i := 0; i < 3; i++ {
 			m.Trace = nil
